@@ -8,7 +8,7 @@ import re
 from . import coqfmt
 from .common import gallina_str, gallina_list, gallina_opt, gallina_bool
 
-HEADER = ("From CV Require Import Base.Str Apath Entry Store Stitch StitchProg Codec Backup Ops Delete Read Inv Conf Valid Truth E2E Corr.Run Corr.Trace.\n"
+HEADER = ("From CV Require Import Base.Str Apath Entry Store Stitch StitchProg Codec Backup Ops Delete Read Inv Conf Valid Truth E2E Healthy Corr.Run Corr.Trace.\n"
           "Local Open Scope N_scope.\n")
 
 BAND_RE = re.compile(r"^b(\d+)$")
@@ -290,6 +290,20 @@ def tree_data(tree):
     return out
 
 
+def tree_as_read(tree, opts):
+    """The source as the backup READS it: opts["mutate"] cuts files after they were stat-ed (the walk keeps the old size)."""
+    if not opts.get("mutate"):
+        return tree
+    import copy
+    t = copy.deepcopy(tree)
+    for m in opts["mutate"]:
+        node = t
+        for part in m["path"].split("/"):
+            node = node["c"][part]
+        node["data"] = node["data"][: 2 * m["len"]]
+    return t
+
+
 def g_sitems(walk_entries, tree):
     data = tree_data(tree)
     return gallina_list(["{| si_e := %s; si_data := %s |}" % (coqfmt.g_sentry(e), gallina_str(data.get(e["apath"], b"")))
@@ -386,6 +400,7 @@ class History:
         self.base_items = None
         self.check_premises = True     # off for histories that start from a deliberately damaged state
         self.expect_ready = False      # set by a caller whose histories are fault-free: E2E.Ready holds before every backup
+        self.expect_uh = False         # set by a caller: kills at any point but no torn write, one backup after healthy states
         self.expect_healthy = False    # set by a caller whose histories have no faults and no kill before a band head
         if parent is None:
             self.state = f"a_{cid}_0"
@@ -398,6 +413,7 @@ class History:
             self.base_items = parent.base_items
             self.expect_healthy = parent.expect_healthy
             self.expect_ready = parent.expect_ready
+            self.expect_uh = parent.expect_uh
 
     def fork(self, cid):
         return History(cid, self.names, group=self.group, parent=self)
@@ -449,8 +465,9 @@ class History:
         elif op == "backup":
             if self.walk is None or self.src_tree is None:
                 return
-            self.names.add_source(self.walk, self.src_tree, step.get("opts", {}))
-            prog = f"(backup_prog pre {g_cfg(step.get('opts', {}))} {g_sitems(self.walk, self.src_tree)})"
+            read_tree = tree_as_read(self.src_tree, step.get("opts", {}))
+            self.names.add_source(self.walk, read_tree, step.get("opts", {}))
+            prog = f"(backup_prog pre {g_cfg(step.get('opts', {}))} {g_sitems(self.walk, read_tree)})"
             summ, kind = "bsum", "backup"
         elif op == "delete":
             hint = hint_from_trace(res.get("trace") or [], self.names, "Metadata")
@@ -492,11 +509,15 @@ class History:
             # the hypotheses of the invariant theorems hold of this run's inputs and of the state it reaches
             name3 = f"c_{self.cid}_{self.k}_premises"
             srcname = f"src_{self.cid}_{self.k}"
-            self.lines.append(f"Definition {srcname} := {g_sitems(self.walk, self.src_tree)}.")
+            self.lines.append(f"Definition {srcname} := {g_sitems(self.walk, tree_as_read(self.src_tree, step.get('opts', {})))}.")
             self.lines.append(f"Definition {name3} : N := if srcsorted_b {srcname} && srcvalid_b {srcname} && srcwf_b {srcname} "
                               f"&& srcok_b {srcname} && conf_b {self.state} && ainv_b {self.state} && wfparents_b pre {self.state} "
                               f"&& dirswf_b pre {self.state} then 0 else 7.")
             self.checks.append((name3, f"premises/invariants (SrcSorted, SrcValid, SrcWF, SrcOK, Conf, AInv, WFparents, DirsWF) at step {self.k}"))
+        if self.expect_uh and op == "backup":
+            name6 = f"c_{self.cid}_{self.k}_uh"
+            self.lines.append(f"Definition {name6} : N := if healthy_uh_b pre {self.state} then 0 else 10.")
+            self.checks.append((name6, f"HealthyUH (Healthy.healthy_uh_b) of the state after step {self.k} ({op})"))
         if self.expect_healthy and op in ("init", "backup", "delete") and fail is None and not rules and not (crash is not None and crash[1]):
             name4 = f"c_{self.cid}_{self.k}_healthy"
             self.lines.append(f"Definition {name4} : N := if healthy_b pre {self.state} then 0 else 8.")
